@@ -118,38 +118,19 @@ Proof.
   apply (equal_objects_sound g fuel); auto.
 Qed.
 
-(* ---- page content streams: the duplicate test ignores the stream dictionary ---- *)
-Definition kFilter : bytes := [70;105;108;116;101;114]%N.
-Definition kAHx : bytes := [65;83;67;73;73;72;101;120;68;101;99;111;100;101]%N.
-Definition twin_g : graph := fun nr =>
-  match nr with
-  | 1 => OStream [] (Some [48;32;99]%N)
-  | 2 => OStream [(kFilter, OName kAHx)] (Some [48;32;99]%N)
-  | _ => ONull
-  end.
-
-Theorem content_dedup_refuted : exists g a b,
-  wfg g /\ contentStreamDup (g a) (g b) = true /\ ~ (forall n, sim n g (ORef a 0) g (ORef b 0)).
-Proof.
-  exists twin_g, 1, 2. split; [|split].
-  - intro nr. unfold twin_g. destruct nr as [|p|p]; try reflexivity. do 2 (destruct p; try reflexivity).
-  - reflexivity.
-  - intro H. specialize (H 1%nat). simpl in H. destruct H as [H _]. specialize (H kFilter). simpl in H. exact H.
-Qed.
-
-(* with the dictionaries compared as well (what the other three duplicate tests do), the
-   substitution is safe *)
-Theorem content_dedup_partial : forall g fuel a b d1 r1 d2 r2,
-  wfg g -> g a = OStream d1 r1 -> g b = OStream d2 r2 ->
-  contentStreamDup (g a) (g b) = true ->
-  EqualObjects fuel g (ODict d1) (ODict d2) [] = CT ->
+(* ---- page content streams: the duplicate test goes through EqualObjects ---- *)
+Theorem content_dedup_preserves : forall g fuel a b,
+  wfg g -> contentStreamDup fuel g (g a) (g b) = CT ->
   forall n, sim n g (ORef a 0) g (ORef b 0).
 Proof.
-  intros g fuel a b d1 r1 d2 r2 Hg Ea Eb Hc He n.
-  destruct n as [|m]. exact I.
-  assert (wfo (ODict d1) = true) as W1 by (pose proof (Hg a) as W; rewrite Ea in W; exact W).
-  assert (wfo (ODict d2) = true) as W2 by (pose proof (Hg b) as W; rewrite Eb in W; exact W).
-  pose proof (equal_objects_sound g fuel (ODict d1) (ODict d2) Hg W1 W2 He (S m)) as Hs.
-  simpl in Hs. simpl. rewrite Ea, Eb. simpl. split. exact Hs.
-  rewrite Ea, Eb in Hc. simpl in Hc. apply andb_true_iff in Hc. destruct Hc as [_ Hb]. apply beqb_eq. exact Hb.
+  intros g fuel a b Hg H.
+  unfold contentStreamDup in H.
+  destruct (g a) eqn:Ea; try discriminate. destruct (g b) eqn:Eb; try discriminate.
+  destruct (Nat.eqb (length (rawbytes raw)) (length (rawbytes raw0))); try discriminate.
+  intro n. apply sim_sym. revert n.
+  apply sim_ref_of_targets; try (rewrite Eb; reflexivity); try (rewrite Ea; reflexivity).
+  rewrite Ea, Eb.
+  apply (equal_objects_sound g fuel); auto.
+  - pose proof (Hg b) as W. rewrite Eb in W. exact W.
+  - pose proof (Hg a) as W. rewrite Ea in W. exact W.
 Qed.
